@@ -228,10 +228,73 @@ func (e *Exec) noteAllocAny(p *Value) {
 	}
 }
 
+// ---------------------------------------------------------------------------
+// crypto/tls: tls.Server returns an opaque connection over the raw conn. Its
+// Read serves a separate plaintext stream and its Write goes to a separate
+// "inside TLS" capture, both supplied by the harness conn through the method
+// VerifTLSInner; it never hands raw bytes to the caller. Record-layer
+// confidentiality/integrity is trusted (DESIGN §3).
+// ---------------------------------------------------------------------------
+
 func modelTLSServer(e *Exec, c *frame, fn *ssa.Function, a []Value) Value {
-	e.unsupported("tls model TODO")
-	return nil
+	raw := a[0].(Iface)
+	t := e.M.namedType("crypto/tls", "Conn")
+	p := new(Value)
+	st := zero(t).(Struct)
+	st[structFieldIndex(t, "conn")] = raw
+	*p = st
+	return p
 }
+
+func (e *Exec) tlsInner(recv *Value) Iface {
+	if recv == nil {
+		e.goPanic("invalid memory address or nil pointer dereference")
+	}
+	t := e.M.namedType("crypto/tls", "Conn")
+	raw := (*recv).(Struct)[structFieldIndex(t, "conn")].(Iface)
+	if raw.T == nil {
+		e.goPanic("tls.Conn over nil conn")
+	}
+	m := e.methodByName(raw.T, "VerifTLSInner")
+	if m == nil {
+		e.unsupported("tls model: the raw conn %v has no VerifTLSInner method", raw.T)
+	}
+	inner := e.CallValue(m, raw.V).(Iface)
+	if inner.T == nil {
+		e.unsupported("tls model: no inner stream configured")
+	}
+	return inner
+}
+
+func tlsForward(name string) Intrinsic {
+	return func(e *Exec, c *frame, fn *ssa.Function, a []Value) Value {
+		inner := e.tlsInner(a[0].(*Value))
+		m := e.methodByName(inner.T, name)
+		if m == nil {
+			e.unsupported("tls model: inner conn lacks %s", name)
+		}
+		args := append([]Value{inner.V}, a[1:]...)
+		return e.CallValue(m, args...)
+	}
+}
+
+func init() {
+	for _, n := range []string{"Read", "Write", "LocalAddr", "RemoteAddr", "SetDeadline", "SetReadDeadline", "SetWriteDeadline"} {
+		models["(*crypto/tls.Conn)."+n] = tlsForward(n)
+	}
+	// Close closes the raw connection as well as the TLS layer
+	models["(*crypto/tls.Conn).Close"] = func(e *Exec, c *frame, fn *ssa.Function, a []Value) Value {
+		recv := a[0].(*Value)
+		inner := e.tlsInner(recv)
+		if m := e.methodByName(inner.T, "Close"); m != nil {
+			e.CallValue(m, inner.V)
+		}
+		t := e.M.namedType("crypto/tls", "Conn")
+		raw := (*recv).(Struct)[structFieldIndex(t, "conn")].(Iface)
+		return e.CallValue(e.methodByName(raw.T, "Close"), raw.V)
+	}
+}
+
 func footBegin(e *Exec, c *frame, fn *ssa.Function, a []Value) Value  { return nil }
 func footReport(e *Exec, c *frame, fn *ssa.Function, a []Value) Value { return nil }
 
